@@ -82,17 +82,18 @@ def source_hash(modkey: str) -> str:
 _stub_cls = None
 
 
-def child_stub(cid: str, level: str, levels: Dict[str, str], name: Any = None):
+def child_stub(cid: str, level: str, levels: Dict[str, str], name: Any = None, times: Any = None, nkids: Any = None):
     """a typed child node under contract: get_regex() returns an opaque closed regex of `level`"""
     global _stub_cls
     ensure()
     if _stub_cls is None:
         class ChildStub(J.abstract.PatternNode):
-            def __init__(self, cid, level, name):
+            def __init__(self, cid, level, name, times=None, nkids=None):
                 self.cid, self.level = cid, level
                 self.name = name if name is not None else "stub-" + cid
-                self.times = J.gd.TimesType(1, 1)
-                self.children = None
+                # a typed node keeps the name, the repetition and the (typed) children of the node it was built from
+                self.times = times if times is not None else J.gd.TimesType(1, 1)
+                self.children = None if not nkids else [ChildStub(f"{cid}.c{i}", level, None) for i in range(nkids)]
                 self.parent = None
                 self.shared_context = None
                 self.calls = 0
@@ -106,7 +107,7 @@ def child_stub(cid: str, level: str, levels: Dict[str, str], name: Any = None):
                 return f"stub({self.cid})"
         _stub_cls = ChildStub
     levels[cid] = level
-    return _stub_cls(cid, level, name)
+    return _stub_cls(cid, level, name, times, nkids)
 
 
 def child_text(cid: str) -> str:
